@@ -61,11 +61,28 @@ fn extreme_heads(i: u64, st: &mut Stats) -> CaseResult {
     let tail_sel = (i >> 8) / 10;
     let args: [&[u8]; 10] = [&[], &[0xff], &[0xff, 0xff], &[0x00, 0x01, 0x86, 0xa0], &[0xff, 0xff, 0xff, 0xff], &[0xff; 8], &[0x7f, 0xff, 0xff, 0xff, 0xff, 0xff, 0xff, 0xff],
                              &[0, 0, 0, 1, 0, 0, 0, 0], &[0x00, 0x10, 0x00, 0x00], &[0x80, 0, 0, 0, 0, 0, 0, 0]];
-    let tails: [&[u8]; 4] = [&[], &[0x00], &[0x01, 0x02, 0x03, 0x04, 0x05, 0x06, 0x07, 0x08], &[0x9b, 0xff, 0xff, 0xff, 0xff, 0xff, 0xff, 0xff, 0xff, 0x00]];
+    let tails: [&[u8]; 5] = [&[], &[0x00], &[0x01, 0x02, 0x03, 0x04, 0x05, 0x06, 0x07, 0x08], &[0x9b, 0xff, 0xff, 0xff, 0xff, 0xff, 0xff, 0xff, 0xff, 0x00], &[0x01, 0x02, 0xff]];
     let mut input = vec![ib];
     input.extend_from_slice(args[arg_sel]);
-    input.extend_from_slice(tails[tail_sel as usize % 4]);
-    render_bounded(&input)?;
+    let tail = tails[tail_sel as usize % 5];
+    input.extend_from_slice(tail);
+    let out = render_bounded(&input)?;
+    // a definite array / map whose declared length exceeds the items that follow before the input ends (or before a stray
+    // break): "should decoding fail, the error message becomes part of the display" - the shortfall is reported inline
+    let (major, ai) = (ib >> 5, ib & 0x1f);
+    let head_len = 1 + match ai { 24 => 1, 25 => 2, 26 => 4, 27 => 8, _ => 0 };
+    if (major == 4 || major == 5) && ai <= 27 && args[arg_sel].len() + 1 >= head_len {
+        let mut declared: u128 = if ai < 24 { ai as u128 } else { let mut v = 0u128; for b in &input[1 .. head_len] { v = v << 8 | *b as u128 } v };
+        if major == 5 { declared *= 2 }
+        // complete scalar items available behind the head (the tails hold one-byte integers, then possibly a break or a nested head)
+        // (the display lets a stray break fill an element slot, so it counts as one here: only a real shortfall is claimed)
+        let avail = input[head_len.min(input.len()) ..].iter().take_while(|b| **b < 0x18 || **b == 0xff).count() as u128;
+        let rest_is_plain = input[head_len.min(input.len()) ..].iter().all(|b| *b < 0x18 || *b == 0xff);
+        if rest_is_plain && declared > avail {
+            ensure!(out.contains(" !!! "), "shortfall-not-reported", "display({}) = {:?}: the head declares {} items, {} follow, but no problem is reported inline", short_hex(&input), out, declared, avail);
+            st.class("declared length exceeds the input: reported inline");
+        }
+    }
     st.nontrivial_enum(1);
     if i % 997 == 0 { st.sample(i, || format!("display({}) bounded by {} bytes", short_hex(&input), limit_for(input.len()))) }
     Ok(())
@@ -174,8 +191,8 @@ pub fn subs() -> Vec<Sub> {
               kind: Kind::Random { quick: 0, thorough: 0, tape: 16, f: raw_input } },
         Sub { prop: "C19", name: "short-inputs", rule: "all inputs of length <= 2 (thorough: <= 3): no panic, output <= 32*len+256 bytes, step budget 64*len+1024",
               kind: Kind::Enumerate { quick: 1 + 256 + 65536, thorough: 1 + 256 + 65536 + (1 << 24), f: short_inputs, complete_quick: true, complete_thorough: true } },
-        Sub { prop: "C19", name: "extreme-heads", rule: "all 256 initial bytes x 10 argument patterns (extreme and boundary declared lengths) x 4 tails",
-              kind: Kind::Enumerate { quick: 256 * 10 * 4, thorough: 256 * 10 * 4, f: extreme_heads, complete_quick: true, complete_thorough: true } },
+        Sub { prop: "C19", name: "extreme-heads", rule: "all 256 initial bytes x 10 argument patterns (extreme and boundary declared lengths) x 5 tails; a definite array / map that declares more items than follow must report the shortfall inline",
+              kind: Kind::Enumerate { quick: 256 * 10 * 5, thorough: 256 * 10 * 5, f: extreme_heads, complete_quick: true, complete_thorough: true } },
         Sub { prop: "C19", name: "mutated", rule: "structure-aware mutations of valid items and random bytes, same totality/size/work oracle; distinct by input",
               kind: Kind::Random { quick: 750_000, thorough: 10_000_000, tape: 1024, f: mutated } },
         Sub { prop: "C19", name: "truncated", rule: "strict prefixes of valid items and huge declared counts in front of valid items",
